@@ -32,6 +32,8 @@ void World::shipDelta(const Op& op, const Obs& before, int, bool) {
 	bool hadSchedule = false;
 	for (auto& q : before.queued) if (q.kind == K_SCHEDULE) hadSchedule = true;
 	for (auto& e : h.trace) if (e.k == EV_ISSUE && e.a == K_SCHEDULE) hadSchedule = true;
+	// a request issued by a guard is processed in a further round, whether or not that round consults anybody
+	for (auto& e : h.trace) if (e.k == EV_ISSUE && (e.method == M_ENTRY_GUARD || e.method == M_EXIT_GUARD) && rounds < 2) rounds = 2;
 
 	if (op.kind == OP_RESET || op.kind == OP_EXIT) {
 		if (op.kind == OP_EXIT && !(wasActive && !isActive)) return;
@@ -105,7 +107,8 @@ void World::applyDelta(int i, const Message& m, bool check) {
 			int s = 0; while (s < int(F.obs.active.size()) && F.obs.active[size_t(s)] == m.src.active[size_t(s)]) ++s;
 			std::snprintf(b, sizeof b, "%s: replaying %zu recorded transition(s) from the authority's pre-step state did not reproduce its configuration (first difference: state %d); rounds=%d replay()=%d",
 				h.role.c_str(), m.delta.size(), s, m.rounds, int(ok));
-			violate("C09.replay_active", b, i);
+			// documented: scheduling requests are applied but not recorded; a resume-style resolution later in the same step depends on them
+			violate("C09.replay_active", b, i, m.hadSchedule ? "unrecorded_schedule_changes_resolution" : "");
 		} else if (F.obs.resumable != m.src.resumable) {
 			if (m.rounds <= 1 && !m.hadSchedule) {
 				int s = 0; while (s < int(F.obs.resumable.size()) && F.obs.resumable[size_t(s)] == m.src.resumable[size_t(s)]) ++s;
